@@ -81,6 +81,23 @@ pub uninterp spec fn s_f64_max() -> f64;
 pub fn c_f64_min() -> (r: f64) ensures r == s_f64_min() { f64::MIN }
 #[verifier::external_body]
 pub fn c_f64_max() -> (r: f64) ensures r == s_f64_max() { f64::MAX }
+// f64::INFINITY / f64::NEG_INFINITY (R1)
+pub uninterp spec fn s_f64_inf() -> f64;
+pub uninterp spec fn s_f64_neg_inf() -> f64;
+#[verifier::external_body]
+pub fn c_f64_inf() -> (r: f64) ensures r == s_f64_inf() { f64::INFINITY }
+#[verifier::external_body]
+pub fn c_f64_neg_inf() -> (r: f64) ensures r == s_f64_neg_inf() { f64::NEG_INFINITY }
+// (Kani: k_float_infinities) the infinities are not NaN and are the extreme elements of the order on non-NaN values:
+// every other non-NaN value is strictly inside, and only the infinity itself compares equal to it
+pub broadcast axiom fn ax_inf_not_nan()
+    ensures !is_nan(s_f64_inf()), !is_nan(s_f64_neg_inf()), #[trigger] flt(s_f64_neg_inf(), s_f64_inf());
+pub broadcast axiom fn ax_inf_extreme(a: int)
+    ensures
+        !nan_b(a) ==> (#[trigger] lt_b(a, fbits(s_f64_inf())) || a == fbits(s_f64_inf())),
+        !nan_b(a) ==> (#[trigger] lt_b(fbits(s_f64_neg_inf()), a) || a == fbits(s_f64_neg_inf())),
+        eq_b(a, fbits(s_f64_inf())) ==> a == fbits(s_f64_inf()),
+        eq_b(a, fbits(s_f64_neg_inf())) ==> a == fbits(s_f64_neg_inf());
 pub uninterp spec fn finite_b(a: int) -> bool;
 pub open spec fn is_finite(a: f64) -> bool { finite_b(fbits(a)) }
 // (Kani: k_float_minmax) finite values lie in [MIN, MAX]; MIN < MAX; neither is NaN
@@ -91,7 +108,7 @@ pub broadcast axiom fn ax_finite(a: int)
 
 pub broadcast group g_float {
     ax_lt, ax_gt, ax_le, ax_ge, ax_eq, ax_ne, ax_nan, ax_feq_refl, ax_feq_sym, ax_eq_bits, ax_total, ax_asym,
-    ax_lt_trans, ax_lt_eq_trans, ax_eq_lt_trans, ax_eq_trans, ax_std_fmax, ax_minmax, ax_finite,
+    ax_lt_trans, ax_lt_eq_trans, ax_eq_lt_trans, ax_eq_trans, ax_std_fmax, ax_minmax, ax_finite, ax_inf_not_nan, ax_inf_extreme,
 }
 
 } // mod vp_float
